@@ -76,6 +76,7 @@ def run(ctx):
     samples = []
     stats = {}
     viol = []
+    fail_by_pair = {}
     for line in out.split("\n"):
         if not line.strip():
             continue
@@ -136,6 +137,7 @@ def run(ctx):
         if kv["judge"] != "ok":
             judge_bad += 1
             sp = spec_of(cid)
+            fail_by_pair[sp.split(" ")[0]] = fail_by_pair.get(sp.split(" ")[0], 0) + 1
             viol.append((len(sp), "judge", "optimised and unoptimised parser disagree: " + kv["judge"],
                          {"case": cid, "spec": sp, "result": kv}, {"clause": kv["judge"][5:25]}, True))
         elif kv["corr"] not in ("ok", "skip"):
@@ -163,6 +165,7 @@ def run(ctx):
         "strings": evals, "model_driver_outcomes_A/B": drv,
         "correspondence": {"compared": corr_cmp, "equal": corr_cmp - corr_bad},
         "judge": {"evaluated": evals + 2 * pairs["total"], "passed": evals + 2 * pairs["total"] - judge_bad - (pairs["total"] - pairs["sim_ok"]) - (pairs["total"] - pairs["det_ok"])},
+        "string_failures_by_pair": dict(sorted(fail_by_pair.items())[:40]),
         "impl_vs_judge_failures": judge_bad + (pairs["total"] - pairs["sim_ok"]) + (pairs["total"] - pairs["det_ok"]),
         "model_vs_impl_disagreements": corr_bad,
     })
